@@ -46,7 +46,7 @@ CHECKS = {
  "C19": ("e2e", "exploration", "start-up and probe sessions of the real binary under a fake lightningd for pairwise option assignments; reference validity predicate",
          "R19a refuse (exit non-zero, no init ack) iff a value is out of range or policy delta <= safety delta, else acknowledge and keep serving; R19b accepted values are the ones applied: 201a bytes, pay retry_for/maxdelay/maxfee/label, self-route-hint flag, MPP timing (one-sided).", "Trusted base: the fake lightningd; wall clock used one-sidedly (late = inconclusive)."),
  "C20": ("block+sim+e2e", "exploration", "online monitor of current_height against the running maximum of heights told, under virtual time, with lost/duplicated/stale notifications, failing polls and concurrent notification pairs preempted at their awaits; bounded catch-up check",
-         "R20a current_height == max(heights told) after every step (never decreases); R20b with notifications lost and polls answered, height catches up within one poll interval (61 s virtual); E2E sessions feed block_added notifications (and, thorough, a silent rise + 63 s wait) to the real binary and read the height used off pay.maxdelay.", "Trusted base: tokio paused clock; getinfo replies are snapshots at evaluation time; fake lightningd in E2E."),
+         "R20a current_height == max(heights told) after every step (never decreases); R20b with notifications lost and polls answered, height catches up within one poll interval (61 s virtual); E2E sessions feed block_added notifications (and, in 2 sessions, 16 in thorough, a silent rise + 63 s wait, half of them with another payment stuck in pay) to the real binary and read the height used off pay.maxdelay.", "Trusted base: tokio paused clock; getinfo replies are snapshots at evaluation time; fake lightningd in E2E."),
  "C13": ("sim", "exploration", "reference label Continue vs observed answer, RPC log and table size in the delivery window",
          "R13a continue at once, R13b no RPC in the delivery window, R13c nothing retained, R13d payload rewrite only drops record 16 (independent BigSize codec).", SIM_NOTE),
 }
